@@ -104,6 +104,9 @@ func c04PanicTok(p any) string {
 	if n, ok := p.(int); ok {
 		return fmt.Sprintf("panic:%d", n)
 	}
+	if p == http.ErrAbortHandler {
+		return "panic:999999"
+	}
 	return "panic:" + strings.ReplaceAll(s, " ", "_")
 }
 
@@ -133,6 +136,8 @@ func c04Do(w http.ResponseWriter, a string) string {
 			return "ok"
 		}
 		return "noflusher"
+	case a == "p:999999":
+		panic(http.ErrAbortHandler)
 	case strings.HasPrefix(a, "p:"):
 		panic(verifh.Atoi(a[2:]))
 	}
@@ -434,10 +439,30 @@ func c04Script(r *verifh.Rng, flush bool) []string {
 				acts = append(acts, "w:zz")
 			}
 		default:
-			acts = append(acts, fmt.Sprintf("p:%d", r.Range(1, 9)))
+			acts = append(acts, fmt.Sprintf("p:%d", r.Pick(1, 2, 3, 4, 5, 6, 7, 8, 9, 999999)))
 		}
 	}
 	return acts
+}
+
+// c04FlushLocked probes whether timeoutWriter.Flush is serialised by tw.mu.
+func c04FlushLocked() bool {
+	tw := &timeoutWriter{w: httptest.NewRecorder(), h: make(http.Header), code: http.StatusOK}
+	tw.mu.Lock()
+	ch := make(chan struct{})
+	go func() {
+		tw.Flush()
+		close(ch)
+	}()
+	select {
+	case <-ch:
+		tw.mu.Unlock()
+		return false
+	case <-time.After(30 * time.Millisecond):
+		tw.mu.Unlock()
+		<-ch
+		return true
+	}
 }
 
 func c04Gen(r *verifh.Rng) []verifh.Section {
@@ -446,7 +471,7 @@ func c04Gen(r *verifh.Rng) []verifh.Section {
 	nsec := verifh.Scale(12, 120)
 	for i := 0; i < nsec; i++ {
 		var ops []string
-		flushSec := i%4 == 3
+		flushSec := i%4 != 1 // Flush is a handler behaviour like any other; every fourth section is Flush-free
 		for j := 0; j < 30; j++ {
 			acts := c04Script(r, flushSec)
 			kind := r.PickS("none", "deadline", "deadline", "cancel", "cancel", "deadline", "cancel", "timer")
@@ -473,12 +498,14 @@ func c04Gen(r *verifh.Rng) []verifh.Section {
 		}
 		secs = append(secs, verifh.Section{Cfg: "wrapper=rest mode=" + mode, Ops: ops})
 	}
-	// free-running handler against a concurrent expiry
+	// free-running handler against a concurrent expiry.  A Flush races the timeout branch only if Flush takes tw.mu
+	// (the pinned Flush writes to the real writer without any lock: racing it is a data race on the recorder).
 	nrace := verifh.Scale(4, 40)
+	flushLocked := c04FlushLocked()
 	for i := 0; i < nrace; i++ {
 		var ops []string
 		for j := 0; j < 40; j++ {
-			acts := c04Script(r, false)
+			acts := c04Script(r, flushLocked && i%2 == 0)
 			ops = append(ops, fmt.Sprintf("race %s %d %s", r.PickS("deadline", "cancel"), r.Pick(0, 0, 1, 2, 3, 5, 8, 13), strings.Join(acts, " ")))
 		}
 		secs = append(secs, verifh.Section{Cfg: "wrapper=rest mode=race", Ops: ops})
